@@ -94,7 +94,7 @@ m={
  "hooks": {
    "guard": "verif",
    "enable": "go build -tags verif -overlay <generated> (overlay maps /verif/harness into /repo/internal/verif and accessor files into existing packages; /repo is never copied or modified)",
-   "baseline_off_cmd": "cd /repo && GOFLAGS=-mod=mod GOPROXY=off GOSUMDB=off GOTOOLCHAIN=local go test -vet=off -count=1 -timeout 25m ./...",
+   "baseline_off_cmd": "cd /repo && GOFLAGS=-mod=mod GOPROXY=off GOSUMDB=off GOTOOLCHAIN=local go test -json -vet=off -count=1 -timeout 25m ./...",
    "source_commits": [c.split()[0] for c in hooks_commits if c],
    "add_only": True,
  },
